@@ -53,6 +53,7 @@ struct World {
 	std::verif_atomic<Obj *> slot[2];
 	unsigned scripts_left = 0;
 	unsigned sync_barriers = 0;
+	unsigned offline_registrations = 0;
 };
 World *W = nullptr;
 thread_local int my_agent = -1;
@@ -130,13 +131,24 @@ void verif_case(Ctx &c) {
 		if((x == DEAD || y == DEAD || ret || y != ~x) && w.error.empty()) { char buf[160]; snprintf(buf, sizeof buf, "reader agent %d saw an object that its grace-period callback had already overwritten (a=%lx b=%lx)", a, x, y); w.error = buf; }
 	};
 
+	// Sequential prologue (before the threads start): histories do not only begin with every agent online and nothing pending.
+	// bit 0: agent 0 has registered a barrier; bit 1: agent 1 has gone offline.
+	unsigned prologue = t.pick(4);
+	if(prologue & 1) { my_agent = 0; register_barrier(0, nullptr); c.tag("prologue-barrier-pending"); }
+	if(prologue & 2) { my_agent = 1; mark_quiescent(1); ag[1]->offline(); w.online[1] = false; mark_quiescent(1); c.tag("prologue-agent-offline"); }
+	my_agent = -1;
+	if(prologue) c.op("prologue: %s%s", prologue & 1 ? "agent 0 registered a barrier; " : "", prologue & 2 ? "agent 1 went offline" : "");
 	std::vector<std::function<void()>> bodies;
 	for(unsigned a = 0; a < nagents; a++) bodies.push_back([&, a] {
 		my_agent = (int)a;
 		try {
 			for(unsigned op : scripts[a].ops) {
 				bool on; { dsched::Ignore ig; on = w.online[a]; }
-				if(!on) { if(op % 4 == 0) { ag[a]->online(); dsched::Ignore ig; w.online[a] = true; } continue; }
+				// an offline agent may come online, and it may also register barriers and call run() ("in any order")
+				if(!on) { if(op % 4 == 0) { ag[a]->online(); dsched::Ignore ig; w.online[a] = true; }
+					else if(op % 4 == 1) { register_barrier(a, nullptr); dsched::Ignore ig; w.offline_registrations++; }
+					else if(op % 4 == 2) do_run(a);
+					continue; }
 				if(a == 0) {                // updater
 					switch(op % 8) {
 					case 0: case 1: case 2: { Obj *n = new_obj(version++); Obj *old = w.slot[op & 1].exchange(n, std::memory_order_acq_rel); register_barrier(a, old); break; }
@@ -201,6 +213,7 @@ void verif_case(Ctx &c) {
 	if(third) c.tag("third-agent-registered-barriers");
 	if(nb >= 2) c.tag("several-barriers");
 	if(w.sync_barriers) c.tag("quiescent_barrier-concurrent");
+	if(w.offline_registrations) c.tag("barrier-registered-while-offline");
 	c.tagf("switches-%s", r.switches < 5 ? "0-4" : r.switches < 20 ? "5-19" : "20+");
 	c.nontrivial = nb >= 1 && r.switches >= 3;
 	W = nullptr;
@@ -209,18 +222,21 @@ void verif_case(Ctx &c) {
 // small-scope exhaustive: 2 agents, <= 2 scripted operations each, interleavings at atomic/lock granularity
 void verif_enum(Enum &e) {
 	uint64_t cap = e.tier == "thorough" ? 50000 : 2500;
-	struct Shape { std::vector<uint32_t> prefix; const char *name; };
-	// prefix: nagents-2, then per agent: nops-1, ops...
+	struct Shape { std::vector<uint32_t> prefix; const char *name; uint32_t prologue = 0; };
+	// prefix: nagents-2, then per agent: nops-1, ops...; prologue: see verif_case
 	std::vector<Shape> shapes = {
 		{{0, 0, 0, 0, 0}, "updater: replace+barrier | reader: read"},
 		{{0, 1, 0, 5, 1, 0, 4}, "updater: replace+barrier, run | reader: read, quiescent_state"},
 		{{0, 1, 0, 3, 1, 8, 4}, "updater: replace+barrier, quiescent_state | reader: read, quiescent_state"},
 		{{0, 1, 3, 0, 1, 4, 6}, "updater: quiescent_state, replace+barrier | reader: quiescent_state, barrier (overlapping registrations)"},
+		{{0, 0, 0, 2, 7, 1, 2}, "updater: replace+barrier | reader: offline, barrier while offline, run"},
+		{{0, 1, 3, 3, 1, 1, 2}, "prologue (a barrier pending, reader offline); updater: quiescent_state x2 | reader: barrier while offline, run", 3},
+		{{0, 1, 3, 5, 1, 1, 2}, "prologue (a barrier pending, reader offline); updater: quiescent_state, run | reader: barrier while offline, run", 3},
 	};
 	for(auto &sh : shapes) {
 		std::vector<uint32_t> choices; bool more = true; uint64_t n = 0;
 		while(more && n < cap) {
-			std::vector<uint32_t> tape = sh.prefix; tape.push_back(0 /* schedule mode: uniform */); tape.insert(tape.end(), choices.begin(), choices.end());
+			std::vector<uint32_t> tape = sh.prefix; tape.push_back(sh.prologue); tape.push_back(0 /* schedule mode: uniform */); tape.insert(tape.end(), choices.begin(), choices.end());
 			if(!e.run(tape)) return;
 			n++;
 			auto sizes = dsched::S().trace_sizes;
